@@ -90,6 +90,11 @@ CHECKS = {
     technique="TLA+ spec of live qubit handles and the qubit budget (Qubits.tla); legal histories are executed on the real SDK -> controller (with the rig's link answering EPR requests) and validated by TLC; failing histories are shrunk by event deletion",
     text="The specification keeps the set of live handles and the guards (allocation and keep need free slots; budget - 1 on NV hardware; sequential forms need one slot, context forms n). Random legal histories of qubit creation, gates, in-place and destructive measurement, free, create/recv keep, sequential post routines, contexts and flushes for budgets 1..5 on generic hardware (full grammar) and NV hardware with and without the NV transpiler (single-pair requests, sequential form), plus the directed patterns of the property text, run through the real pipeline; at every flush TLC checks: no controller fault, active_qubits = the controller's allocated virtual qubits, their number = |live|, every live handle owns a distinct allocated id.",
     note="Trusted: TLC, harness/eng_c09.py (mirrors the spec's guards when generating). NV multi-pair requests, NV contexts and carbon-carbon gates under the NV transpiler are exercised only by directed cases that are listed as known findings. Four defects found and repaired in /repo (free, context, sequential ID release; NV relocation peephole)."),
+    "C10": dict(
+        engine="c10", category="model_checking", design="5 C10",
+        technique="TLA+ Pauli-frame specification (BellFrame.tla: Deliver / Pauli / Mov / Use / End per physical qubit, stabiliser statistics for measure-directly); every keep-type API variant is executed on the real SDK -> controller -> executor against a scripted link for all Bell-state tuples and the executor's gate log is validated as a trace by TLC",
+        text="For each variant (recv/create keep, with info, post routine keeping or measuring the qubit, sequential, sequential with classical feed-forward, recv_rsp, recv_rsp_with_info) x generic / single-communication-qubit hardware x role x expect_phi_plus x 1..3 (thorough: 4) pairs x ALL Bell-state tuples x 0..2 other live qubits the real subroutine runs; TLC replays deliveries, X/Z corrections, moves and the application's first own operation per physical qubit and checks that pair i's accumulated Pauli equals the one its Bell state demands when the application first sees it (or at the end), that no correction touches another qubit, and that nothing is corrected for creators or with the expectation off. Measure-directly: create_measure and recv_measure run end to end for 4 Bell states x 6 named bases x expectation on/off x 4 raw outcome pairs; TLC judges the post-processed pairs against the Phi+ stabiliser statistics (parity and uniformity on the support of the delivered state), both for recv_measure as it is and for the result object when it is given the bases.",
+        note="Trusted: TLC, the rig's link (harness/rig.py AutoLink), the mapping of rot_x/rot_z 16 4 to X/Z. recv_context has no expectation switch and is out of scope. Traces that the SDK refuses or that fault for qubit-management reasons (NV relocation with several pairs; property C09's known findings) are not judged and counted in the evidence notes. One defect repaired in /repo (corrections before a post routine); two recorded as known findings (keep corrections aimed at virtual qubit 0: pinned by the test-suite text; recv_measure post-processes as if the basis were Z: needs an API change)."),
 }
 
 REASON_TODO = "check not built yet (work in progress; see DESIGN.md section 9)"
